@@ -79,12 +79,16 @@ pub fn run_case(c: &Case) {
 /// a silent run with a node limit: does the engine need more than `cap` nodes for this depth with the cache neutralised?
 /// (used only to drop cases that are too heavy for a stream; nothing of the run is compared)
 fn heavier_than(fen: &str, depth: u8, cap: u64) -> bool {
+    heavier_than_with(fen, depth, cap, true)
+}
+
+fn heavier_than_with(fen: &str, depth: u8, cap: u64, cache_off: bool) -> bool {
     let Some(board) = setup_board(fen, &[]) else {
         return true;
     };
     println!("S calibration probe");
     TRANSPOSITION_TABLE.write().unwrap().clear();
-    sv::CACHE_OFF.store(true, Ordering::Relaxed);
+    sv::CACHE_OFF.store(cache_off, Ordering::Relaxed);
     sv::STOP_AT_POLL.store(u64::MAX, Ordering::Relaxed);
     *sv::RECORDER.lock().unwrap() = None;
     let limits = SearchLimits::new().nodes(Some(cap)).depth(Some(depth));
@@ -423,6 +427,144 @@ pub fn search_stream(args: &[String]) {
         r
     };
     match mode.as_str() {
+        "fifty" => {
+            // the fifty-move horizon inside the tree: positions with the half-move clock at 96..100 in which castling, captures,
+            // pawn moves and promotions are available next to quiet moves; cache neutralised, so the root score is compared with
+            // plain minimax (a clock-preserving castling move at 99 reaches a drawn node, an irreversible move does not)
+            let bases = ["4rkr1/4p1p1/8/8/8/8/8/4K2R w K - 0 80", "r3k3/8/8/8/8/8/4P1P1/1R2K1R1 b q - 0 80", "r3k2r/8/8/8/8/8/8/R3K2R w KQkq - 0 60",
+                "r3k2r/p1ppqpb1/bn2pnp1/3PN3/1p2P3/2N2Q1p/PPPBBPPP/R3K2R w KQkq - 0 40", "4k3/P7/8/8/8/8/7p/R3K3 w Q - 0 70", "r3k3/7P/8/8/8/8/p7/4K2R b q - 0 70",
+                "4k2r/8/8/8/8/8/5PPP/4K2R b Kk - 0 50", "2kr3r/pp3ppp/8/8/8/8/PP3PPP/R3K2R w KQ - 0 33", "8/8/8/3k4/8/3K4/3R4/8 w - - 0 90", "r3k2r/8/8/8/8/8/8/R3K2R b KQkq - 0 60"];
+            let mut n = 0usize;
+            for base in bases.iter() {
+                for clock in [96u32, 97, 98, 99, 100] {
+                    for d in 1..=maxdepth {
+                        n += 1;
+                        if n > count * 50 || !mine(&mut idx) {
+                            continue;
+                        }
+                        let f: Vec<&str> = base.split(' ').collect();
+                        let fen = format!("{} {} {} {} {} {}", f[0], f[1], f[2], f[3], clock, f[5]);
+                        let b = Board::from_fen(&fen);
+                        if b.is_in_check(b.current_turn.opposite()) {
+                            continue;
+                        }
+                        run_case(&Case { fen, moves: vec![], depth: d, nodes: None, stop: 0, cache: "off", tag: String::new(), tc: NO_TC, vdiv: 0 });
+                    }
+                }
+            }
+        }
+        "deepend" => {
+            // sparse, level endgames searched DEEP (the shuffling lines of such positions put repeated positions into the
+            // principal variation from about depth 6 on): only the property-level checks on the engine's own output apply
+            // (info syntax and order, every PV legal by the rules, one legal bestmove) — the model is not run (`tag=deep`)
+            let value = |c: char| match c.to_ascii_lowercase() { 'q' => 9i32, 'r' => 5, 'b' | 'n' => 3, 'p' => 1, _ => 0 };
+            let mut made = 0usize;
+            let mut tries = 0u64;
+            while made < count && tries < 400_000 {
+                tries += 1;
+                let Some(mut b) = random_sparse(&mut rng) else { continue };
+                let fen = render_fen(&b);
+                let placement = fen.split(' ').next().unwrap_or("");
+                let bal: i32 = placement.chars().map(|c| if c.is_ascii_uppercase() { value(c) } else { -value(c) }).sum();
+                if bal.abs() > 1 || b.get_legal_moves().is_empty() {
+                    continue;
+                }
+                made += 1;
+                if !mine(&mut idx) {
+                    continue;
+                }
+                if heavier_than_with(&fen, maxdepth, 1_500_000, false) {
+                    println!("# heavy case dropped: depth {maxdepth} [{fen}]");
+                    continue;
+                }
+                run_case(&Case { fen, moves: vec![], depth: maxdepth, nodes: None, stop: 0, cache: "fresh", tag: "tag=deep".to_string(), tc: NO_TC, vdiv: 0 });
+            }
+        }
+        "huge" => {
+            // a process whose cache once held millions of entries: the same small searches from an emptied cache are run before
+            // and after the cache is filled to `--entries` positions and cleared again, the way `bench` clears it.  Whatever a
+            // very full cache leaves behind (allocation, counters, caps) must not change a fresh search.  The filling does not
+            // search (a search that stores five million entries takes minutes): the keys of positions met on random games are
+            // inserted directly with a copy of a real entry; only the engine's own runs are compared (`tag=deep`)
+            let target: usize = arg(args, "entries", 4_500_000);
+            let small = [("rnbqkbnr/pppppppp/8/8/8/8/PPPPPPPP/RNBQKBNR w KQkq - 0 1", 4u8), ("8/2p5/3p4/KP5r/1R3p1k/8/4P1P1/8 w - - 0 1", 5), ("r3k2r/p1ppqpb1/bn2pnp1/3PN3/1p2P3/2N2Q1p/PPPBBPPP/R3K2R w KQkq - 0 1", 3)];
+            let frame = |_: ()| {
+                for (fen, d) in small.iter() {
+                    run_case(&Case { fen: fen.to_string(), moves: vec![], depth: *d, nodes: None, stop: 0, cache: "fresh", tag: "tag=deep".to_string(), tc: NO_TC, vdiv: 0 });
+                }
+            };
+            if shard == 0 {
+                frame(());
+                let entry = TRANSPOSITION_TABLE.read().unwrap().values().next().copied();
+                if let Some(entry) = entry {
+                    let mut tt = TRANSPOSITION_TABLE.write().unwrap();
+                    tt.clear();
+                    'fill: loop {
+                        let fen = super::walk::SEEDS[rng.below(super::walk::SEEDS.len() as u64) as usize];
+                        let mut b = Board::from_fen(fen);
+                        for _ in 0..200 {
+                            let moves = b.get_all_moves();
+                            if moves.is_empty() {
+                                break;
+                            }
+                            // pseudo-legal moves are good enough: only the keys matter
+                            b.make_move(moves[rng.below(moves.len() as u64) as usize]);
+                            tt.insert(b.zkey, entry);
+                            if tt.len() >= target {
+                                break 'fill;
+                            }
+                        }
+                    }
+                    println!("# huge session: {} cache entries before the cache is cleared", tt.len());
+                    tt.clear();
+                }
+                frame(());
+            }
+        }
+        "matechain" => {
+            // the cache holds the results of a search of the PARENT position (a game in progress): Q is searched to depth 4 or 5,
+            // then — cache kept — a position P one move below Q in which the side to move can mate at once, given as a bare FEN
+            let mut made = 0usize;
+            let mut tries = 0u64;
+            while made < count && tries < 2_000_000 {
+                tries += 1;
+                let q = match rng.below(3) {
+                    0 => random_sparse(&mut rng),
+                    1 => random_profile(&mut rng, 3),
+                    _ => random_profile(&mut rng, 4),
+                };
+                let Some(mut q) = q else { continue };
+                if q.get_halfmove_clock() > 60 || !mates_in_one(&mut q).is_empty() {
+                    continue;
+                }
+                let mut found = None;
+                for m in q.get_legal_moves() {
+                    q.make_move(m);
+                    let mut p = Board::from_fen(&render_fen(&q));
+                    q.unmake_move();
+                    let m1 = mates_in_one(&mut p);
+                    if !m1.is_empty() {
+                        found = Some((render_fen(&p), m1[0]));
+                        break;
+                    }
+                }
+                let Some((pfen, wit)) = found else { continue };
+                made += 1;
+                if !mine(&mut idx) {
+                    continue;
+                }
+                let qfen = render_fen(&q);
+                let dq = 4 + (made % 2) as u8;
+                if heavier_than_with(&qfen, dq, 150_000, false) {
+                    println!("# heavy case dropped: depth {dq} [{qfen}]");
+                    continue;
+                }
+                run_case(&Case { fen: qfen, moves: vec![], depth: dq, nodes: None, stop: 0, cache: "fresh", tag: String::new(), tc: NO_TC, vdiv: 0 });
+                for d in [3u8, 4, 3] {
+                    run_case(&Case { fen: pfen.clone(), moves: vec![], depth: d.min(maxdepth.max(3)), nodes: None, stop: 0, cache: "keep", tag: format!("tag=m1 wit={}", wit.to_notation()), tc: NO_TC, vdiv: 0 });
+                }
+            }
+        }
         "chain" => chain_mode(&mut rng, &pos, count, maxdepth, shard, of, arg(args, "budget", 3_000_000)),
         "file" => {
             // one case per line: fen | moves | depth | nodes | stop | cache
@@ -546,8 +688,19 @@ pub fn search_stream(args: &[String]) {
                     // the mover's allowance is time / 20 + inc / 2; three flavours reach the same allowance k:
                     // both clocks equal; the mover's own clock and increment with very different ones for the opponent; movetime
                     let white = board.current_turn == Color::White;
-                    let tc = match rng.below(4) {
+                    let tc = match rng.below(6) {
                         0 => [Some(20 * k), Some(20 * k), None, None, None],
+                        // one-sided: only the mover's clock (and perhaps increment) is given — `go wtime 1000` is a complete command
+                        4 => {
+                            let a = if rng.below(2) == 0 { 0 } else { rng.below(k + 1) };
+                            let (mt, mi) = (Some(20 * (k - a) + rng.below(20)), if a == 0 { None } else { Some(2 * a + rng.below(2)) });
+                            if white { [mt, None, mi, None, None] } else { [None, mt, None, mi, None] }
+                        }
+                        // … or only the opponent's: the mover's own allowance is then zero
+                        5 => {
+                            let (ot, oi) = (Some(20 * (k + rng.below(50))), if rng.below(2) == 0 { None } else { Some(rng.below(100)) });
+                            if white { [None, ot, None, oi, None] } else { [ot, None, oi, None, None] }
+                        }
                         1 | 2 => {
                             let a = rng.below(k + 1);
                             let (mt, mi) = (Some(20 * (k - a) + rng.below(20)), Some(2 * a + rng.below(2)));
